@@ -393,6 +393,60 @@ fn run_sized_literals(n: usize, ctx: &mut CaseCtx) -> Verdict {
     Verdict::Pass
 }
 
+/// v2: "the result of an expression" that is only known once the layout has settled: the operand is a call of a
+/// function that adds the address of a label, and that label moves by one after the first pass (an instruction of a
+/// short/long family in front of it names a label far behind). The value that counts is the final one.
+///     lag end / here: / t after(K) / end:        with #fn after(n) => n + here
+/// (the first pass takes the long form of `lag`: here = 3; the layout settles with the short form: here = 2)
+fn run_moving_value(t: &mut Tape, ctx: &mut CaseCtx) -> Verdict {
+    let kind = *t.pick(&[Kind::U, Kind::S, Kind::I]);
+    let n = *t.pick(&[8usize, 16, 24]);
+    let bs = boundaries(n);
+    let v = t.pick(&bs).clone() + BigInt::from(t.range(-2, 2));
+    let k = &v - BigInt::from(2);
+    let ktext = if k.is_negative() { format!("0 - {}", -&k) } else { k.to_string() };
+    let via_fn = t.chance(2, 3);
+    let operand = if via_fn { format!("after({})", ktext) } else { format!("({}) + here", ktext) };
+    let src = format!(
+        "#ruledef\n{{\n    t {{x: {}{}}} => x\n    lag {{p}} => {{ assert(p < 0x100), 0x10 @ p`8 }}\n    lag {{p}} => 0x20 @ p`16\n}}\n#fn after(n) => n + here\nlag end\nhere:\nt {}\nend:\n",
+        kind.letter(),
+        n,
+        operand
+    );
+    ctx.nontrivial = true;
+    ctx.set_hash_str(&src);
+    ctx.label(if via_fn { "moving-value:function-of-a-label" } else { "moving-value:label-arithmetic" });
+    ctx.render(|| json!({"source": src, "final_value": v.to_string()}));
+    let inside = in_range(kind, n, &v);
+    ctx.evals += 1;
+    let out = sut::assemble_src(&src, &Opts::default());
+    let fail = |c: &str, d: String, ctx: &mut CaseCtx| {
+        ctx.want_render = true;
+        ctx.render(|| json!({"source": src, "final_value": v.to_string()}));
+        Verdict::fail(format!("{}|moving-value|{}", pred(kind, n), c), d)
+    };
+    match (&out, inside) {
+        (AsmOutcome::Panic(p), _) => fail(&format!("panic {}", sut::panic_site(p)), p.clone(), ctx),
+        (AsmOutcome::Ok(ok), true) => {
+            if ok.bits.len() != 16 + n {
+                return fail("output-length", format!("{} bits, expected {}", ok.bits.len(), 16 + n), ctx);
+            }
+            let want = mod_pow2(&v, n);
+            let mut got = BigInt::zero();
+            for b in 0..n {
+                got = got * 2 + BigInt::from(ok.bits[16 + b] as u8);
+            }
+            if got != want {
+                return fail("wrong-bits", format!("`t {}` with here = 2 is {}: emitted {:#x}, expected {:#x}", operand, v, got, want), ctx);
+            }
+            Verdict::Pass
+        }
+        (AsmOutcome::Ok(ok), false) => fail("out-of-range-accepted", format!("`t {}` with here = 2 is {}, outside {}{}: accepted, output {}", operand, v, kind.letter(), n, sut::bits_hex(&ok.bits)), ctx),
+        (_, true) => fail("in-range-rejected", format!("`t {}` with here = 2 is {}, inside {}{}: {}", operand, v, kind.letter(), n, out.brief()), ctx),
+        (_, false) => Verdict::Pass,
+    }
+}
+
 impl Property for C04 {
     fn id(&self) -> &'static str {
         "C04"
@@ -444,6 +498,9 @@ impl Property for C04 {
         32
     }
     fn run(&self, t: &mut Tape, ctx: &mut CaseCtx) -> Verdict {
+        if crate::engine::gen_version() >= 2 && t.chance(1, 4) {
+            return run_moving_value(t, ctx);
+        }
         let kind = *t.pick(&[Kind::U, Kind::S, Kind::I, Kind::D]);
         let n = t.urange(17, 256);
         let bs = boundaries(n);
